@@ -109,6 +109,9 @@ package util
 //@   ensures [item] (r2 == nil || errIs(r2, io.EOF)) && be64(rin, old(rpos)) >= 1 ==> len(r1) == be64(rin, old(rpos)) && rpos == old(rpos) + 8 + len(r1) && forall(q, 0 <= q && q < len(r1) ==> r1[q] == byt(rin[old(rpos) + 8 + q]))
 //@   ensures [count] (r2 == nil || errIs(r2, io.EOF)) ==> r0 == rpos - old(rpos)
 //@   ensures rpos >= old(rpos) && rpos <= rend
+// the only error ReadLengthed makes itself is for a length prefix above the
+// frame-size limit (2^31-1): every smaller frame a writer can produce is read
+//@   callsite Errorf requires be64(rin, old(rpos)) > 2147483647
 
 //@ func ReadLengthedSlice
 //@   prop C29
